@@ -53,7 +53,22 @@ fn g_len(rng: &mut Rng) -> usize {
         _ => rng.urange(0, 10),
     }
 }
+/// Text around the decoder's 4096-byte chunk size: ASCII filler, then a 2-4 byte character that
+/// starts 0..len bytes before a multiple of 4096 (so that it may straddle the chunk boundary).
+fn g_long_string(rng: &mut Rng) -> String {
+    let k = rng.urange(1, 2) * 4096;
+    let ch = *rng.pick(&['é', '€', '𝄞', 'z']);
+    let before = k - rng.urange(0, ch.len_utf8());
+    let mut s = "a".repeat(before);
+    s.push(ch);
+    let tail = rng.urange(0, 50);
+    s.extend((0..tail).map(|i| if i % 7 == 3 { 'é' } else { 'b' }));
+    s
+}
 fn g_string(rng: &mut Rng) -> String {
+    if rng.chance(1, 40) {
+        return g_long_string(rng);
+    }
     let n = g_len(rng);
     (0..n)
         .map(|_| match rng.below(10) {
@@ -69,7 +84,7 @@ fn g_key(rng: &mut Rng) -> String {
     (0..n).map(|_| (b'a' + rng.below(26) as u8) as char).collect()
 }
 fn g_bytes(rng: &mut Rng) -> Vec<u8> {
-    let n = g_len(rng);
+    let n = if rng.chance(1, 40) { rng.urange(1, 2) * 4096 + rng.urange(0, 2) - 1 } else { g_len(rng) };
     rng.bytes(n)
 }
 fn g_f64(rng: &mut Rng) -> f64 {
@@ -388,6 +403,46 @@ fn crafted_value(seed: u64) -> (Vec<u8>, Option<bool>) {
     (out, None)
 }
 
+/// Decimal fractions `4([e, m])` as a foreign encoder may produce them. A token amount is
+/// `m * 10^-decimals` with `decimals` a u8: only exponents -255..=0 and unsigned mantissas up to
+/// 2^64-1 denote one.
+fn crafted_token_amount(seed: u64) -> (Vec<u8>, Option<bool>) {
+    let mut rng = Rng::new(seed);
+    fn int(v: i64, out: &mut Vec<u8>) {
+        let (major, n) = if v < 0 { (0x20u8, (-1 - v) as u64) } else { (0x00u8, v as u64) };
+        if n < 24 {
+            out.push(major | n as u8);
+        } else if n < 256 {
+            out.extend_from_slice(&[major | 24, n as u8]);
+        } else {
+            out.push(major | 25);
+            out.extend_from_slice(&(n as u16).to_be_bytes());
+        }
+    }
+    let e = *rng.pick(&[0i64, -1, -2, -18, -23, -24, -25, -255, -256, -300, 1, 2, 3, 18, 23, 24, 255, 256]);
+    let m_ok = !rng.chance(1, 8);
+    let mut b = vec![0xc4, 0x82];
+    int(e, &mut b);
+    if m_ok {
+        match rng.below(4) {
+            0 => b.push(rng.below(24) as u8),
+            1 => b.extend_from_slice(&[0x18, rng.range(24, 255) as u8]),
+            2 => {
+                b.push(0x1b);
+                b.extend_from_slice(&u64::MAX.to_be_bytes());
+            }
+            _ => {
+                b.push(0x1a);
+                b.extend_from_slice(&(rng.next_u32() | 0x0100_0000).to_be_bytes());
+            }
+        }
+    } else {
+        // negative mantissa
+        b.push(0x20 | rng.below(24) as u8);
+    }
+    (b, Some(m_ok && (-255..=0).contains(&e)))
+}
+
 fn with_crafted(mut s: Subject, c: Box<dyn Fn(u64) -> (Vec<u8>, Option<bool>) + Send + Sync>) -> Subject {
     s.crafted = Some(c);
     s
@@ -417,6 +472,7 @@ pub fn cbor_subjects() -> Vec<Subject> {
     v.push(cbor_subject::<bool>("bool", false, |r| r.coin()));
     v.push(cbor_subject::<f64>("f64", false, g_f64));
     v.push(cbor_subject::<String>("String", false, g_string));
+    v.push(cbor_subject::<String>("String(around the 4096-byte chunk)", false, |r| if r.chance(2, 3) { g_long_string(r) } else { g_string(r) }));
     v.push(cbor_subject::<Bytes>("Bytes", false, |r| Bytes(g_bytes(r))));
     v.push(with_crafted(
         cbor_subject::<[u8; 4]>("[u8;4]", false, |r| {
@@ -453,7 +509,7 @@ pub fn cbor_subjects() -> Vec<Subject> {
     v.push(with_crafted(cbor_subject::<AccountAddress>("AccountAddress", false, g_account), crafted_fixed(32, None)));
     v.push(with_crafted(cbor_subject::<concordium_base::hashes::Hash>("Hash", false, g_hash), crafted_fixed(32, None)));
     // protocol-level token types
-    v.push(cbor_subject::<plt::TokenAmount>("TokenAmount", false, g_token_amount));
+    v.push(with_crafted(cbor_subject::<plt::TokenAmount>("TokenAmount", false, g_token_amount), Box::new(crafted_token_amount)));
     v.push(cbor_subject::<plt::CoinInfo>("CoinInfo", false, |_| plt::CoinInfo::CCD));
     v.push(cbor_subject::<plt::CborHolderAccount>("CborHolderAccount", false, g_holder));
     v.push(cbor_subject::<plt::CborHolderAccount>("CborHolderAccount(fail-unknown)", true, g_holder));
